@@ -15,7 +15,8 @@ ID = 'C19'
 TITLE = 'Match expressions cannot reach private attributes'
 LEVEL = 'exploration'
 TECHNIQUE = ('grammar-based program generation (member chains, calls, indexing, literals, operators, format-template '
-             'productions) plus byte-level mutation, evaluated over tripwired sentinel objects and real nodes; exhaustive '
+             'productions) plus byte-level mutation and (thorough tier) an atheris / libFuzzer coverage-guided campaign with '
+             'the same oracle in the target, evaluated over tripwired sentinel objects and real nodes; exhaustive '
              'name-resolution check over builtins')
 RULE = ("Cases are expression strings: grammar-generated (identifiers from the given variables, the documented whitelist "
         "and ~30 non-whitelisted builtins/dunders; member chains over public, _private, __mangled and __dunder__ names; "
@@ -202,6 +203,9 @@ def jobs(tier):
         js.append({'kind': 'grammar', 'n': n, 'shard': s})
         js.append({'kind': 'mutated', 'n': n // 4, 'shard': s})
     js.append({'kind': 'names'})
+    if tier != 'quick':
+        for s in range(8):
+            js.append({'kind': 'atheris', 'runs': 250000, 'shard': s})
     return js
 
 
@@ -212,8 +216,44 @@ def run_job(job, seed, sink):
             sink({'expr': nm, 'names_check': True})
         sink({'expr': '', 'whitelist_check': True})
         return
+    if job['kind'] == 'atheris':
+        return run_atheris(job, seed, sink)
     strat = grammar() if job['kind'] == 'grammar' else mutated()
     hyp_drive(strat.map(lambda s: {'expr': s}), job['n'], seed, sink)
+
+
+def run_atheris(job, seed, sink):
+    """Coverage-guided supplement (libFuzzer via atheris) in a child process, seeded from the grammar and from empty;
+    every input it reports is re-checked here through the normal path, so replay files do not depend on atheris."""
+    import json
+    import os
+    import subprocess
+    import sys
+    from ..core import REPO, VERIF, scratch_dir
+    d = os.path.join(scratch_dir(), f"atheris{job['shard']}")
+    corpus = os.path.join(d, 'corpus')
+    os.makedirs(corpus, exist_ok=True)
+    if job['shard'] % 2 == 0:           # odd shards start from an empty corpus
+        seeds = []
+        hyp_drive(grammar(), 150, seed, seeds.append)
+        for i, s in enumerate(seeds):
+            with open(os.path.join(corpus, f's{i}'), 'w', encoding='utf-8') as f:
+                f.write(s)
+    outp = os.path.join(d, 'out.json')
+    env = dict(os.environ)
+    env['PYTHONPATH'] = os.pathsep.join([REPO, VERIF, os.path.join(VERIF, '.deps')])
+    try:
+        subprocess.run([sys.executable, '-m', 'vf.fuzz_c19', outp, corpus, str(job['runs']), str(seed % 2 ** 31)], env=env, cwd=VERIF,
+                       stdout=subprocess.DEVNULL, stderr=subprocess.DEVNULL, timeout=3000)
+    except Exception:
+        pass
+    res = {'found': {}, 'stats': {'execs': 0, 'parsed_ok': 0}}
+    if os.path.exists(outp):
+        with open(outp) as f:
+            res = json.load(f)
+    sink({'expr': '', 'fuzz_stats': res['stats']})
+    for key, ent in res['found'].items():
+        sink({'expr': ent['expr']})
 
 
 def valid(case):
@@ -288,6 +328,12 @@ def mentions_private(s):
 def check(case):
     out = Outcome()
     s = case['expr']
+    if case.get('fuzz_stats') is not None:
+        st_ = case['fuzz_stats']
+        out.label(f"atheris-shard:execs={st_.get('execs', 0)},evaluated={st_.get('parsed_ok', 0)}")
+        if not st_.get('execs'):
+            out.skipped = 'atheris-unavailable'
+        return out
     if case.get('whitelist_check'):
         got = set(expressions.DEFAULT_GLOBALS)
         if got != set(DOCUMENTED):
